@@ -10,6 +10,8 @@ decoding the bytes the encoder wrote yields exactly the series, then a clean end
 import SigModel.Model.Gorilla
 import SigModel.Lemmas.C08
 import SigModel.Lemmas.C08e
+import SigModel.Lemmas.C08p
+import SigModel.Spec.Metrics
 
 namespace SigModel.Props.C08
 open SigModel SigModel.Gorilla
@@ -97,6 +99,46 @@ theorem decode_encode_unguarded_counterexample :
   have hc := h 5 [(5, 0), (2147483653, 0), (4, 0)] (by decide)
     (by intro t v ps e; cases e; rfl)
   revert hc
+  decide +kernel
+
+/-! ### series identity: the input of the TSID hash (tagsholder.go GetTSID; xxhash itself is an arbitrary function)
+
+Model: `Spec.Metrics.preimageB` (tie: suite `tsidpre`).  Distinct (metric name, tag list) pairs must hash distinct
+bytes, or two series are stored as one (e2e class tsid-preimage-collision). -/
+
+open SigModel.Spec.Metrics in
+/-- every length the code writes as `uint32(len(x))` is the length -/
+def fitsU32 (name : List Nat) (tags : List (List Nat × List Nat)) : Prop :=
+  name.length < 2 ^ 32 ∧ ∀ kv ∈ tags, kv.1.length < 2 ^ 32 ∧ kv.2.length < 2 ^ 32
+
+open SigModel.Spec.Metrics in
+/-- C08.5: the bytes the repaired GetTSID hashes determine the metric name and the (sorted) tag list, whatever bytes
+names, keys and values contain — for all names and tag lists below 4 GiB per field. -/
+theorem tsid_preimage_injective (n1 n2 : List Nat) (t1 t2 : List (List Nat × List Nat))
+    (h1 : fitsU32 n1 t1) (h2 : fitsU32 n2 t2) (h : preimageB n1 t1 = preimageB n2 t2) :
+    n1 = n2 ∧ t1 = t2 :=
+  Lemmas.C08p.preimageB_inj n1 n2 t1 t2 h1.1 h2.1 h1.2 h2.2 h
+
+/-- non-vacuity: the guard holds for ordinary series, e.g. m{z="x",ab="1"} -/
+example : fitsU32 [109] [([122], [120]), ([97, 98], [49])] := by
+  refine ⟨by decide, ?_⟩
+  intro kv hkv
+  simp only [List.mem_cons, List.not_mem_nil, or_false] at hkv
+  rcases hkv with rfl | rfl <;> decide
+
+open SigModel.Spec.Metrics in
+/-- the OLD input (name `__` key `__` value key `__` value …, nothing between a value and the next key) is NOT
+injective: m{z="x",ab="1"} and m{z="xa",b="1"} are different series with one pre-image (known finding
+tsid-preimage-collision, repaired). -/
+theorem tsidPreimageOld_collision :
+    ∃ a b : Series, sameSeries a b = false ∧ tsidPreimageOld a = tsidPreimageOld b := by
+  refine ⟨{ name := "m", labels := [("z", "x"), ("ab", "1")], points := [] },
+          { name := "m", labels := [("z", "xa"), ("b", "1")], points := [] }, ?_, ?_⟩ <;> decide +kernel
+
+open SigModel.Spec.Metrics in
+/-- … and the repaired input keeps exactly this pair apart. -/
+example : tsidPreimage { name := "m", labels := [("z", "x"), ("ab", "1")], points := [] } ≠
+          tsidPreimage { name := "m", labels := [("z", "xa"), ("b", "1")], points := [] } := by
   decide +kernel
 
 end SigModel.Props.C08
